@@ -32,7 +32,7 @@
             iterate / to_array OElems (as Some _)
      map    set OBool (true iff it replaced); get OText; remove OPair; has_key/has_value OBool;
             count OInt; get_keys/get_values OTexts; get_pairs/iterate OPairs;
-            mutk/mutv/delk/delv (caller-object operations) OUnit, state unchanged
+            mutk/mutv/delk/delv/newpair (caller-object operations) OUnit, state unchanged
    Index normalisation: idx < 0 means idx + len.  insert_at past the end pads with None.
    get / remove_at are refused (None, unchanged) below 0 and at or after len.
 
@@ -310,7 +310,8 @@ Inductive mop : Type :=
 | MMutK (t : key)        (* the caller changes the text of the key object it passed to set *)
 | MMutV (t : key)
 | MDelK                  (* the caller deletes its key object *)
-| MDelV.
+| MDelV
+| MNewPair.              (* the caller makes an empty objpair (spif_objpair_new) and deletes it again *)
 
 Definition map_step (m : mstate) (op : mop) : mstate * out :=
   match op with
@@ -324,7 +325,7 @@ Definition map_step (m : mstate) (op : mop) : mstate * out :=
   | MGetValues => (m, OTexts (map snd m))
   | MGetPairs => (m, OPairs m)
   | MIterate => (m, OPairs (fst (it_sweep (S (length m)) (it_new m))))
-  | MMutK _ | MMutV _ | MDelK | MDelV => (m, OUnit)
+  | MMutK _ | MMutV _ | MDelK | MDelV | MNewPair => (m, OUnit)
   end.
 
 (* ---------------------------------------------------------------------------------------- *)
